@@ -162,6 +162,10 @@ def summarize(rep: Report, jobs, results, prop, level, rule, extra_cov=None, fea
                      "outside the claim": "programs beyond the enumerated families; iteration counts / recursion depths / lengths above the listed ones; opcode budget; crypto ops are uninterpreted"}
     if extra_cov:
         cov.update(extra_cov)
+    if crashes:
+        kinds = Counter(c["detail"].split(":")[0] for c in crashes)
+        print("NOTE property=%s %d of %d programs made the compiler raise a non-PyTeal exception (not explored; listed in the evidence): %s; e.g. %s: %s"
+              % (prop, len(crashes), len(jobs), dict(kinds), crashes[0]["id"], crashes[0]["detail"][:120]))
     # too many unexplained crashes -> cannot explore
     if st["ok"] == 0 or len(crashes) > 0.1 * max(1, len(jobs)):
         rep.harness_error("cannot explore: %d ok, %d crashes of %d jobs" % (st["ok"], len(crashes), len(jobs)))
